@@ -289,16 +289,29 @@ def run(ctx):
     wc = ctx.fn("worker_pool::WorkerPool::start::{closure#0}::{closure#0}", "R-C17.4")
     if wc:
         og = ctx.og(wc)
-        fs_ = [b for b, t in wc.calls() if A.cname(t) == "std::sync::atomic::Atomic::<usize>::fetch_sub"]
+        # decrement sites: an explicit fetch_sub, or the drop of a local whose Drop impl does the fetch_sub (RAII guard)
+        dec = [b for b, t in wc.calls() if A.cname(t) == "std::sync::atomic::Atomic::<usize>::fetch_sub"]
+        for b, blk in enumerate(wc.blocks):
+            t = blk["t"]
+            if t["k"] == "drop" and not blk["cleanup"] and not t["pl"]["p"]:
+                dfn = F.fns.get("<%s as std::ops::Drop>::drop" % t["ty"])
+                if dfn and any(A.cname(t2) == "std::sync::atomic::Atomic::<usize>::fetch_sub" for _, t2 in dfn.calls()):
+                    src = og.of_local(t["pl"]["l"])
+                    if any(x.k == "field" and x.a[1] == "thread_counter" for x in A.walk(src)):
+                        dec.append(b)
         tick = R.call_blocks(wc, ("worker_pool::worker_tick",))
-        ok = False
-        if fs_ and tick:
-            # on the Ok(true) path (abort requested) the counter is decremented before returning
+        ok = oke = False
+        if dec and tick:
             rf = A.result_flow(wc, tick[0])
-            r = A.reach(wc, rf.ok_blocks, avoid=fs_ + tick)
-            rets = [x for x in wc.return_blocks() if x in r]
-            ok = not rets
+            # on the Ok(true) path (abort requested) the counter is decremented before returning
+            r = A.reach(wc, rf.ok_blocks, avoid=dec + tick)
+            ok = not [x for x in wc.return_blocks() if x in r]
+            # ... and on the Err path (the worker failed and poisoned the database) as well: drop waits on the counter
+            re_ = A.reach(wc, rf.err_blocks, avoid=dec + tick)
+            oke = bool(rf.err_blocks) and not [x for x in wc.return_blocks() if x in re_]
         ctx.ob("R-C17.4", wc, "worker-decrements-counter-on-stop", ok, "a worker leaving its loop on the stop path decrements active_thread_counter" if ok else "a worker can stop without decrementing active_thread_counter (drop would wait forever)")
+        ctx.ob("R-C17.4", wc, "worker-decrements-counter-on-failure", oke, "a worker leaving its loop because worker_tick failed decrements active_thread_counter" if oke
+               else "a worker whose tick fails (I/O error in flush/compaction/rotation) returns without decrementing active_thread_counter: DatabaseInner::drop then waits forever for a thread that has already exited")
     ws = ctx.fn("worker_pool::WorkerPool::start", "R-C17.4")
     if ws:
         fa = [b for b, t in ws.calls() if A.cname(t) == "std::sync::atomic::Atomic::<usize>::fetch_add"]
